@@ -1,7 +1,7 @@
 (* C02 - every runner request is answered exactly once; queue full => busy error at once; the scheduler drains.
    Theorems only. *)
 From Coq Require Import List ZArith NArith Bool Lia Arith.
-From V Require Import Sched.Lts Sched.Reach Sched.InvOwn Sched.InvLock Sched.Refute Sched.Dead Sched.InvRef Sched.Drain Sched.Examples.
+From V Require Import Sched.Lts Sched.Reach Sched.InvOwn Sched.InvLock Sched.Refute Sched.Dead Sched.InvRef Sched.Drain Sched.Quiesce Sched.Examples.
 Import ListNotations.
 
 (* A submit that finds the pending queue full is answered in the same step with the busy error, the request is
@@ -67,41 +67,38 @@ Example C02_no_lock_deadlock_nonvacuous :
   fixed cfg_on /\ exists s ev, run cfg_on (init_m 1) (firstn 22 w_deadlock ++ [LExpire 0; LRun 4 0%Z; LRun 1 0%Z; LRun 1 0%Z]) = Some (s, ev).
 Proof. split. reflexivity. vm_compute. eexists; eexists; reflexivity. Qed.
 
-(* Drain clause.  [quiescent]: no scheduler thread can take a step (not even with a load / ping outcome).
-   The full statement - in every quiescent reachable state of the repaired scheduler in which all requests that hold a
-   runner have finished, no keep-alive timer is pending and no helper goroutine sleeps, nothing is loaded, every
-   started runner is shut down and every un-cancelled request has exactly one reply - is kept as a definition: its
-   proof needs, on top of what is proved here, the characterisation "quiescent => idle" (a case analysis over the 46
-   program counters using C02_no_lock_deadlock for the lock waits, and a token-accounting invariant excluding a
-   pending loop stuck at "wait for the unloaded event"); that part is NOT proved. *)
-Definition quiescent (c : config) (s : state) : Prop := forall t alt, step c s (LRun t alt) = None.
-
-Definition no_sleepers (s : state) : Prop :=
-  forall t p, nth_error (thr s) t = Some p ->
-  match p with RTSleep _ _ | RSSleep _ _ | TEntry _ => False | _ => True end.
-
-Definition C02_quiescent_complete_full : Prop :=
+(* Drain clause.  [quiescent c s]: no scheduler thread can take a step (not even with a load / ping / newServer
+   outcome); [settled s]: every request that holds a runner has been cancelled (= has finished) and no live runner
+   has a keep-alive timer pending; [no_sleepers s]: no retry / re-queue goroutine is sleeping.
+   For the repaired scheduler (pending queue of at least one slot): in every such reachable state nothing is
+   registered as loaded, every runner that was started has been shut down, and every request that was not
+   cancelled has exactly one reply.  "Provided loads in flight finish and the requests ahead complete" is the
+   hypothesis [settled] + quiescence: a load in flight or an unfinished holder keeps a step enabled or a holder
+   un-cancelled.  Rests on C02_no_lock_deadlock, refCount = holders (InvRef), "an idle registered runner always has a
+   pending reason to expire", "a pending loop waiting for an unload gets its token", "an un-cancelled request is owned
+   or answered" (InvProg), and a case analysis over the 46 program counters (Quiesce.stuck_or_waits). *)
+Theorem C02_quiescent_complete :
   forall c m ls s ev, fixed c -> 1 <= c_maxq c -> run c (init_m m) ls = Some (s, ev) ->
   quiescent c s -> settled s -> no_sleepers s ->
   loaded s = [] /\
   (forall r x, getr s r = Some x -> r_closed x = true) /\
   (forall q x, getq s q = Some x -> q_cancelled x = false -> length (q_replies x) = 1).
+Proof. intros c m ls s ev Hf Hq H. eapply quiescent_drained; eauto. eapply run_Reach; eauto. Qed.
+Print Assumptions C02_quiescent_complete.
 
-(* Proved part: the same conclusion from the explicit description of the idle configuration (both loops at their
-   select with empty queues, every other goroutine finished or waiting for an un-cancelled request's context).
-   Rests on: refCount = holders (InvRef), "an idle registered runner always has a pending reason to expire"
-   (InvProg.I_id), "an un-cancelled request is owned or answered" (InvProg.I_ow). *)
-Theorem C02_quiescent_complete_partial :
+(* The same conclusion from the explicit description of the idle configuration (both loops at their select with
+   empty queues, every other goroutine finished or waiting for an un-cancelled request's context). *)
+Theorem C02_idle_drained :
   forall c m ls s ev, fixed c -> run c (init_m m) ls = Some (s, ev) -> idle s -> settled s ->
   loaded s = [] /\
   (forall r x, getr s r = Some x -> r_closed x = true) /\
   (forall q x, getq s q = Some x -> q_cancelled x = false -> length (q_replies x) = 1).
 Proof. intros c m ls s ev Hf H. eapply drained; eauto. eapply run_Reach; eauto. Qed.
-Print Assumptions C02_quiescent_complete_partial.
+Print Assumptions C02_idle_drained.
 
 Example C02_quiescent_complete_nonvacuous :
   (* after the load / grant / cancel / finish / expire / unload run, and the pending loop consuming the stray
      unloaded event, the scheduler is idle and settled - and drained *)
   fixed cfg_on /\ exists s ev, run cfg_on (init_m 1) (ex_load_unload ++ [LRun 0 1%Z]) = Some (s, ev) /\
-    pendq s = [] /\ finq s = [] /\ expq s = [] /\ thr s = [PSel; CSel; TDone; TDone] /\ loaded s = [].
+    pendq s = [] /\ finq s = [] /\ expq s = [] /\ thr s = [PSel; CSel; TDone; TDone] /\ unlq s = 0 /\ loaded s = [].
 Proof. split. reflexivity. vm_compute. eexists; eexists; repeat split; reflexivity. Qed.
